@@ -1,4 +1,5 @@
 """Turn a connection's record events into TCP segments (causal, arbitrarily segmentable, with retransmissions/reordering)."""
+import random
 import struct
 from dataclasses import dataclass
 
@@ -16,6 +17,7 @@ class Endpoints:
     cisn: int = 1000
     sisn: int = 5000
     fin: bool = False         # each direction's last data segment also carries FIN (response / close_notify and FIN in one segment, as real stacks send them)
+    encap: object = ns.PLAIN  # VLAN tags / IPv4 options / IPv6 extension headers around every packet of the pair (netsynth.Encap)
     tcpopts: bool = False     # segments carry TCP options as real stacks send them (timestamps on every segment, MSS/SACK-permitted/window scale on SYN, SACK blocks on some ACKs)
 
     @property
@@ -24,7 +26,7 @@ class Endpoints:
 
     def describe(self):
         import ipaddress
-        return f"{ipaddress.ip_address(self.cip)}:{self.cport}->{ipaddress.ip_address(self.sip)}:{self.sport}"
+        return f"{ipaddress.ip_address(self.cip)}:{self.cport}->{ipaddress.ip_address(self.sip)}:{self.sport}" + (f" [{self.encap.describe()}]" if self.encap else "")
 
 
 def default_ep(i=0, v6=False, sport=443):
@@ -89,7 +91,9 @@ def random_ep(rng, v6=None, sport=443, odd=0.3):
         sisn = cisn                                             # equal initial sequence numbers
     else:                                                       # half the sequence space apart, give or take a stream length
         sisn = (cisn + (1 << 31) + rng.choice([-1, 1]) * rng.choice([0, 1, 2, 100, 700, 3000, 20000, rng.randrange(0, 70000)])) % (1 << 32)
-    return Endpoints(cm, sm, ci, si, cport, sport, cisn, sisn, tcpopts=bool(odd) and (cport ^ cisn) % 3 != 0, fin=bool(odd) and (cport * 7 + cisn) % 4 == 0)
+    er = random.Random((cport << 33) ^ cisn ^ 0x5EED)           # own stream: drawing the encapsulation does not shift any other draw of the case
+    encap = ns.random_encap(er, v6) if odd and er.random() < 0.22 else ns.PLAIN
+    return Endpoints(cm, sm, ci, si, cport, sport, cisn, sisn, encap=encap, tcpopts=bool(odd) and (cport ^ cisn) % 3 != 0, fin=bool(odd) and (cport * 7 + cisn) % 4 == 0)
 
 
 @dataclass
@@ -166,7 +170,7 @@ def frame(ep: Endpoints, s: Seg, bad_csum=False):
         else:
             opts = b"\x01\x01\x08\x0a" + tsv
     seg = ns.tcp_segment(si, di, sp, dp, s.seq, s.ack, s.flags, s.payload, bad_csum=bad_csum, options=opts)
-    return ns.eth_frame(sm, dm, ns.ip_packet(si, di, 6, seg))
+    return ns.eth_frame(sm, dm, ns.ip_packet(si, di, 6, seg, opts=ep.encap.opts, ext=ep.encap.ext), vlan=ep.encap.vlan)
 
 
 # ------------------------------------------------------------------ cutters
